@@ -270,11 +270,16 @@ impl AcceptDriver {
         ITERATION_DONE.with(|d| *d.borrow_mut() = false);
         SINGLE_STEP.with(|s| *s.borrow_mut() = true);
         // `process_timeout` recomputes the poll time-out from the listeners' deadlines whenever one is set
-        self.accept.timeout = Some(self.accept.timeout.map_or(wait, |t| t.min(wait)));
+        let orig = self.accept.timeout;
+        self.accept.timeout = Some(orig.map_or(wait, |t| t.min(wait)));
         self.accept.poll_with(&mut self.sockets);
         SINGLE_STEP.with(|s| *s.borrow_mut() = false);
         let done = ITERATION_DONE.with(|d| *d.borrow());
         self.exited = !done;
+        if self.exited {
+            // the iteration returned on `Stop` before `process_timeout`: leave the field as the loop left it
+            self.accept.timeout = orig;
+        }
         StepReport { events: EVENTS.with(|e| e.borrow().clone()), exited: self.exited }
     }
 
